@@ -34,7 +34,25 @@ def _record(oid, diffs, bounds, extra=None):
 
 def solver_queries(tier, scratch):
     out = []
-    fresh = lr.gen_tables(scratch)
+    try:
+        fresh = lr.gen_tables(scratch)
+    except RuntimeError as e:
+        # the declared grammar cannot be turned into tables at all (PLY's validation or generator rejects it): a valid
+        # shipped cache hides that; what the library does when the cache is missing or stale decides the property
+        gen_error = str(e)[-400:]
+        for state in ["valid", "missing", "stale_signature", "old_tabversion"]:
+            d = lr.scratch_with_cache(state, "NO-FRESH-SIGNATURE")
+            try:
+                lr.runtime_tables(d)
+                out.append({"id": f"C20.cache/{state}", "engine": "z3-tables", "functions": FN, "result": "inconclusive", "solver_wall_s": 0.0,
+                            "bounds": f"cache state {state}", "detail": "the parser object builds, but the fresh generation used as the reference failed: " + gen_error})
+            except Exception as e2:
+                out.append({"id": f"C20.cache/{state}", "engine": "z3-tables", "functions": FN, "result": "violation", "solver_wall_s": 0.0,
+                            "bounds": f"cache state {state}: constructing / running the parser in a fresh interpreter on a package copy whose parsetab.py is {state}",
+                            "counterexample": {"error": str(e2)[-600:], "fresh_generation_error": gen_error, "reproduced": True,
+                                               "note": "the library fails instead of regenerating its tables under this cache state"}})
+            drop(d)
+        return out
     # 1. the table file of the working tree
     path = os.path.join(REPO, "simple_ddl_parser", "parsetab.py")
     if os.path.exists(path):
